@@ -7,7 +7,7 @@ import os
 
 class H:
     """one harness: fn(ctx) plus the instance list per tier"""
-    def __init__(self, name, fn, instances, expect=('ok',), desc='', bounds=None, budget=None, split=True):
+    def __init__(self, name, fn, instances, expect=('ok',), desc='', bounds=None, budget=None, split=True, decoy=0):
         self.name = name
         self.fn = fn
         self.instances = instances          # callable tier -> list of cfg dicts
@@ -16,6 +16,7 @@ class H:
         self.bounds = bounds or {}
         self.budget = budget or {}
         self.split = split
+        self.decoy = decoy                  # number of instances (or 'all') additionally run after a decoy run of a neighbouring instance
 
 
 class Unexpected(Exception):
@@ -24,6 +25,32 @@ class Unexpected(Exception):
 
 def lib(name):
     return importlib.import_module('elftools.' + name if name else 'elftools')
+
+
+class DecoyStop(Exception):
+    """the decoy run cannot continue (an assumption of its instance is not satisfiable on the chosen path); the real run follows"""
+
+
+def run_harness(h, ctx):
+    """run harness h under ctx.  If the instance carries a decoy (cfg['_decoy']), the harness function first runs once on the
+    decoy instance with its own, independent inputs (prefix 'decoy.'), silently: no obligations, no outcome, exceptions ignored.
+    The library is thus used on a DIFFERENT file/section of the same kind in the same process before the run that is checked:
+    whatever the library keeps beyond the objects of one file (class attributes, module-level memo tables, shared parser
+    instances) and keys too coarsely shows up as a wrong answer in the checked run."""
+    d = ctx.cfg.get('_decoy') if isinstance(ctx.cfg, dict) else None
+    if d is not None:
+        sub = ctx.decoy_ctx(d)
+        ctx.decoy_begin()
+        try:
+            h.fn(sub)
+        except BaseException as e:
+            # the decoy may end in any way (error of the library, unsatisfiable assumption of its instance, read budget);
+            # engine signals (path abort, engine limit) and interrupts pass through
+            if not (isinstance(e, Exception) or type(e).__name__ in ('AssumeFailed', 'ReadBudgetExceeded')):
+                raise
+        finally:
+            ctx.decoy_end()
+    return h.fn(ctx)
 
 
 class ReadBudgetExceeded(BaseException):
@@ -62,6 +89,15 @@ def exc_label(ex):
 
 class CtxBase:
     symbolic = False
+
+    prefix = ''
+    mute = False
+
+    def decoy_begin(self):
+        pass
+
+    def decoy_end(self):
+        pass
 
     def __init__(self, cfg):
         self.cfg = cfg
@@ -105,7 +141,8 @@ class CtxBase:
         self._outcome = label
 
     def observe(self, name, value):
-        self.obs.append((name, value))
+        if not self.mute:
+            self.obs.append((name, value))
 
     def check_eq(self, label, got, want):
         self.observe(label, got)
